@@ -97,6 +97,21 @@ def run_gotab(mod=None):
     return {"log": out.strip().splitlines()[-8:]}
 
 
+def run_gosrc():
+    """Translate the listed loop-free integer functions of /repo's current source into coq/gen/TabSrc.v."""
+    d = os.path.join(VERIF, "go", "gosrc")
+    exe = os.path.join(BUILD, "gosrc")
+    with Lock("gosrc"):
+        rc, out = sh(["go", "build", "-o", exe, "."], cwd=d, env=GOENV, timeout=600)
+        if rc != 0:
+            raise BuildError("gosrc build", out)
+        with Lock("gen"):
+            rc, out = sh([exe, os.path.join(COQ, "gen", "TabSrc.v")], cwd=REPO, env=GOENV, timeout=600)
+        if rc != 0:
+            raise BuildError("gosrc run (source no longer parses)", out)
+    return out.strip()
+
+
 # --------------------------------------------------------------------------
 # step 2: Coq
 def write_if_changed(path, text):
@@ -120,6 +135,9 @@ def gen_project_files():
         dd = os.path.join(COQ, d)
         if os.path.isdir(dd):
             files += sorted("%s/%s" % (d, f) for f in os.listdir(dd) if f.endswith(".v") and not f.startswith("."))
+    # the source-level tie (proofs/SrcFnP.v, props/SrcFns.v) needs gen/TabSrc.v, which go/gosrc writes (setup, C10)
+    if not os.path.exists(os.path.join(COQ, "gen", "TabSrc.v")):
+        files = [f for f in files if not os.path.basename(f).startswith("SrcFn")]
     proj = "".join("-Q %s Verif\n" % d for d in COQ_DIRS) + "".join(f + "\n" for f in files)
     return write_if_changed(os.path.join(COQ, "_CoqProject"), proj)
 
